@@ -9,7 +9,7 @@ PROP=$1; DIFF=$(readlink -f "$2"); DEMO=${3:-}
 VERIF=$(cd "$(dirname "$0")/.." && pwd)
 WS=$(mktemp -d /tmp/ws-XXXXXX)
 export GOFLAGS=-mod=mod GOPROXY=off GOSUMDB=off GOTOOLCHAIN=local
-cleanup() { git -C /repo worktree remove --force "$WS" >/dev/null 2>&1; rm -rf "$WS" "$VERIF/harness/bin/mod-"* ; }
+cleanup() { git -C /repo worktree remove --force "$WS" >/dev/null 2>&1; rm -rf "$WS" "$VERIF/harness/bin/mod-"* /tmp/verif-lean-* ; }
 trap cleanup EXIT
 git -C /repo worktree add -q --detach "$WS" HEAD || exit 2
 cd "$WS"
